@@ -5,14 +5,14 @@ from vlib import cz, czl, tolq
 
 LEVEL_TEXT = ("Coq theorems (abstract field with conjugation, any length and order) about the model of arburg: AR vector = step-up "
               "polynomial of the reflection coefficients, rho = mean power * prod(1-|k|^2), nesting, 'criterion => plain Burg of "
-              "some order q<=p', the recursive denominator equals the stage energy and each k minimises it (E(q)-E(k)=den|q-k|^2). "
+              "some order q<=p', the recursive denominator equals the stage energy and each k minimises it (E(q)-E(k)=den|q-k|^2); in the abstract "
+              "ordered *-field (Gaussian rationals and C are models): |k_m|^2<=1 by Cauchy-Schwarz, rho>=0 and non-increasing. "
               "Tie: exact in-Coq correspondence with arburg/_arburg2 on dyadic inputs (incl. criteria), search on the implementation.")
 TRUSTED = ["Coq 8.16.1 kernel + vm_compute", "hand-written model coq/Model/Burg.v (tie = correspondence run)",
            "criteria with logarithms (AIC, AICc, KIC, AKICc, MDL) enter the model as an abstract stop rule; in the correspondence "
            "run the harness recomputes the stop index from its own formulas; FPE is modelled exactly",
            "Python harness"]
-UNPROVED = ["|k_i| <= 1 and monotone rho: order statements (corollaries of burg_k_optimal in an ordered field), checked by search",
-            "stability of the step-up polynomial (root location): search only"]
+UNPROVED = ["stability of the step-up polynomial (root location needs an algebraically closed field): search only"]
 ASSUMPTIONS = ["exact arithmetic", "non-degenerate stages (denominator non-zero) as in the property statement"]
 RULE = ("real/complex low-bit dyadic data N=4..12, orders 1..5 exactly in Coq (with and without criteria); noise, tones in noise, "
         "integer data N=4..200, orders up to 30 in the search; non-trivial = order>=2 and non-constant data")
